@@ -1142,6 +1142,10 @@ impl Model {
                         detail: format!("panic while polling {}: {}", task, msg),
                     })
                 }
+                Ob::Broken { rule, detail } => out.push(Mismatch {
+                    rule: rule.to_string(),
+                    detail: detail.clone(),
+                }),
                 Ob::WireErr(e) => {
                     if self.check_wire {
                         out.push(Mismatch {
